@@ -9,7 +9,7 @@ from ..errors import AnalysisError
 from ..model import FuncInfo, dotted, src, walk_scope
 from ..persist import Plumbing
 from ..report import Context
-from ..util import calls_in, is_self_attr, node_for, normaliser, parse_expr, reaching_events, returns_of
+from ..util import attr_store_sites, calls_in, is_self_attr, node_for, normaliser, parse_expr, reaching_events, returns_of
 from . import c02
 
 LEVEL_TEXT = (
@@ -33,6 +33,7 @@ def run(ctx: Context) -> None:
     v = CalibrateView(ctx.prog)
     ctx.rule(c02.r5_labels, v)
     ctx.rule(r3_persisted)
+    ctx.rule(r3b_write_order)
     ctx.rule(r4_no_stale_cache)
     ctx.rule(r4_channel)
 
@@ -133,6 +134,20 @@ def r1_writers(ctx: Context) -> None:
         ok = len(calls) == 1 and len(calls[0].args) == 1 and src(calls[0].args[0]) in arg_forms
         ctx.check(ok, "R1.update-on-replace", f"Calibrator.{name}:updates-table", f"{name} extends the table with the new line-up",
                   f"{name} does not call update_samplers_id_table with the new samplers", f, f.node)
+    # the scheduler's line-up changes only through calls that also update the table: every store of the sampler sequence takes a private copy, so a list the
+    # caller keeps (and later appends a sampler of a new class to) cannot change the line-up behind the table's back
+    n_seq = 0
+    for f, stmt, recv, value in attr_store_sites(prog, "_samplers", include_plot=False):
+        if value is None:
+            continue
+        n_seq += 1
+        copied = (isinstance(value, ast.Call) and (dotted(value.func) or "") in ("tuple", "list") and len(value.args) == 1) or isinstance(value, (ast.Tuple, ast.List)) \
+            or (isinstance(value, ast.Name) and any(isinstance(d_, ast.Call) and (dotted(d_.func) or "") in ("tuple", "list") for d_ in [x.value for x in walk_scope(f.node)
+                if isinstance(x, ast.Assign) and any(isinstance(t, ast.Name) and t.id == value.id for t in x.targets)]))
+        ctx.check(copied, "R1.lineup-copy", f"{f.qualname.split(':')[1]}:_samplers", f"`{src(stmt)[:60]}` stores a private copy of the sampler sequence",
+                  f"`{src(stmt)[:80]}` keeps the caller's own sequence object as the scheduler's line-up: a sampler the caller appends to that list later is scheduled without "
+                  "update_samplers_id_table ever seeing its class, so its label has no entry in the table", f, stmt)
+    ctx.floor("R1", "stores of the scheduler's sampler sequence", n_seq, 2)
     init = ctx.func(f"{CAL}.__init__")
     st = [v for f, s, v in stores if f is init]
     ok = len(st) == 1 and isinstance(st[0], ast.Call) and src(st[0].func).endswith("_construct_samplers_id_table") and src(st[0].args[0]) in ("list(self.scheduler.samplers)", "self.scheduler.samplers")
@@ -221,6 +236,22 @@ def r3_persisted(ctx: Context) -> None:
               "the id table is written to the checkpoint (or can never differ from the one rebuilt from the scheduler)",
               "samplers_id_table is not part of the checkpoint: restore and the plotting utilities rebuild it from the scheduler's current samplers, "
               "which renumbers classes after set_samplers/set_scheduler replaced the line-up - stored labels then map to the wrong names", pl.cc, pl.cc_call)
+
+
+def r3b_write_order(ctx: Context) -> None:
+    """The labels live in the results file, the line-up the table is rebuilt from in the scheduler pickle.  Written in that order (pickle first) a crash between the
+    two leaves labels that are at most as new as the line-up; the other way round the results file can hold the label of a class the stored line-up does not know."""
+    pl = Plumbing(ctx.prog)
+    eff = [e for e in pl.save_effects() if e.api != "rename"]
+    order = [e.file for e in eff]
+    sched = [s.key for s in pl.save_storage().get("scheduler", []) if s.kind == "pickle"]
+    labels = [e.file for e in eff if e.api == "to_csv"]
+    if not sched or not labels:
+        raise AnalysisError("cannot find the scheduler pickle / the results file among the effects of save")
+    ok = order.index(sched[0]) < order.index(labels[0])
+    ctx.check(ok, "R3.write-order", "save_calibrator_state:scheduler-before-labels", f"{sched[0]} is written before {labels[0]}",
+              f"{labels[0]} (sampler labels) is written before {sched[0]} (the line-up the id table is rebuilt from): after set_samplers added a class, a crash between the two leaves "
+              "labels that the table recovered from the checkpoint cannot name", pl.save, eff[order.index(labels[0])].node)
 
 
 def r4_channel(ctx: Context) -> None:
